@@ -301,13 +301,22 @@ func runC02(seed int64, n int, tier string) *Result {
 		Rule: "tracer level: a real packet.Tracer with 1-2 readers (fed by real upstream writers) and 1-4 writers (each with or without a downstream reader); 8-32 calls chosen at random among " +
 			"the next call of each forward loop (Read; Link of 0-4 derived packets; Write of each to its own writer, or Write(nil, request) when nothing is derived; with two readers also the many-to-one shape: one packet linked to the requests of both readers, then written) and the answers of downstream readers " +
 			"(payload, error, None) delivered through Tracer.Receive, in any interleaving (so answers arrive while a later request is between Read and Link); observed after every call: the answers handed to each reader (outbound hook), " +
-			"Tracer.Reads / Tracer.Writes, panics; node level (every fourth case): see the node oracle; non-trivial = two requests of one reader in flight at once; distinct by rendered case",
+			"Tracer.Reads / Tracer.Writes, panics; node level (every fourth case): see the node oracle; during every node-level run the calls the REAL nodes make on their tracers are recorded (verif hook under the tracer's lock) and each tracer's call sequence, with the answers handed out during each call, goes through the same checker (discipline, model, specification); non-trivial = two requests of one reader in flight at once; distinct by rendered case",
 		Hist: map[string]int{},
 	}
 	for i := 0; i < n; i++ {
 		g, in, fail, nt := tracerCase(r, res.Hist)
 		if fail == "" && i%4 == 0 {
+			rec := startTraceRec02()
 			fail = nodeCase(r, res.Hist)
+			recCases, recOps := rec.stop()
+			if fail == "" {
+				for k, rc := range recCases { // what the real nodes did on their tracers, through the same checker
+					res.Cases = append(res.Cases, Case{Gallina: rc, Input: map[string]any{"level": "recorded from a real node", "ops": recOps[k]}, Nontrivial: len(recOps[k]) > 6})
+					res.Hist["recorded-tracers"]++
+					res.Hist["recorded-calls"] += len(recOps[k])
+				}
+			}
 		}
 		if fail == "" {
 			fail = readGroupCase(rand.New(rand.NewSource(seed*7919+int64(i))), res.Hist)
